@@ -227,6 +227,21 @@ def ext(s, ctx, func, g, tc, A, caller, ln, last):
         if last == 'split': return IterM([Ref(Cell(Str(x), 'piece')) for x in a.split(pt)])
         if last == 'to_owned': return Str(a)
         raise Unsupported('string method ' + last)
+    if not tc and re.search(r'(Option::(<.*>::)?Some|Result::(<.*>::)?(Ok|Err))$', func) and len(A) == 1:
+        # a variant constructor used as a function (`.map(Some)`, `.map_err(Err)`)
+        return some(A[0]) if last == 'Some' else (ok(A[0]) if last == 'Ok' else err(A[0]))
+    if tc and tc[1] == 'Default' and tc[2] == 'default' and tc[0] in ('Mutex', 'RwLock', 'RefCell', 'Cell', 'Arc', 'Rc', 'Box'):
+        from .mirparse import split_top
+        from .engine import LockM, RefCellM
+        inner_t = None
+        mm = re.match(r'^[\w:]+<(.*)>$', tc[3].strip())
+        if mm: inner_t = split_top(mm.group(1))[-1].strip()
+        if inner_t:
+            iv = yield from s.call(ctx, '<' + inner_t + ' as std::default::Default>::default', [], caller, ln)
+            if tc[0] in ('Mutex', 'RwLock'): return LockM(iv, 'lock', tc[0])
+            if tc[0] == 'RefCell': return RefCellM(iv, 'refcell')
+            if tc[0] == 'Cell': return Agg('Cell', 0, [iv])
+            return Agg(tc[0], 0, [Ref(Cell(iv, 'heap'))])
     if tc and tc[1] == 'Default' and tc[2] == 'default':
         t = tc[0]
         if _ity(tc[3]): return 0
@@ -280,6 +295,16 @@ def ext(s, ctx, func, g, tc, A, caller, ln, last):
         if isinstance(v, Str): return v
         if isinstance(v, bool) or is_conc(v) or is_z3(v): return Str(('fmt', 'display', '\\xc0\\x00', v, tc[3]))
         raise Unsupported('to_string of ' + type(v).__name__)
+    if tc and tc[0] == 'String' and tc[1] == 'Write' and tc[2] in ('write_fmt', 'write_str', 'write_char'):
+        # `write!(s, ..)` into a String: the rendered text is appended
+        if tc[2] == 'write_fmt': add = yield from s.call(ctx, 'alloc::fmt::format', [A[1]], caller, ln)
+        elif tc[2] == 'write_str': add = deref_all(A[1])
+        else:
+            c_ = simp(A[1]) if is_z3(A[1]) else A[1]
+            if not is_conc(c_): raise Unsupported('write_char of a symbolic character')
+            add = Str(chr(c_))
+        yield from s.call(ctx, 'alloc::string::String::push_str', [A[0], add], caller, ln)
+        return ok(unit())
     if tc and tc[0] == 'String' and tc[1] == 'Add' and tc[2] == 'add':
         return Str(('concat', [deref_all(A[0]), deref_all(A[1])]))
     # ------------------------------------------------------------ calls through `dyn Trait` of a trait defined in the analysed crates
